@@ -160,7 +160,7 @@ PROPS = {
     "C11": dict(stages=["ast", "codegen"], viol=_c11_viol, level="exploration"),
     "C08": dict(stages=["codegen"], viol=_c08_viol),
     "C09": dict(stages=["builder"], viol=_c09_viol),
-    "C17": dict(stages=["determinism"], viol=_c17_viol),
+    "C17": dict(stages=["determinism", "settings"], viol=_c17_viol),
     "C18": dict(stages=["regen"], viol=_c18_viol),
     "C16": dict(stages=["pipeline"], viol=_c16_viol),
     "C06": dict(stages=["lex"], viol=_c06_viol),
